@@ -2,7 +2,7 @@
    with bounded offsets, and exactness (least matching instant, expiry iff none) and totality for
    fixed-offset locations. *)
 From Coq Require Import ZArith Lia Bool List ZifyBool.
-Require Import QzBase.Calendar QzBase.Fields QzBase.CalendarProofs.
+Require Import QzBase.UnixRange QzBase.Calendar QzBase.Fields QzBase.CalendarProofs.
 Require Import QzCron.Gen.Params QzCron.CsmModel QzCron.CsmSpec QzCron.NextFire QzCron.CommonProofs
                QzCron.DayProofs QzCron.MachineProofs QzCron.NodeProofs QzCron.TotalProofs.
 Import ListNotations.
@@ -188,7 +188,7 @@ Section Sound.
       + apply (wall_next_high f Hwf w Ha). lia.
   Qed.
 
-  Lemma body_fire : forall prev w ns, 0 <= prev <= max_nanos -> good w ->
+  Lemma body_fire : forall prev w ns, min_nanos <= prev <= max_nanos -> good w ->
     nft_body f z (prev / nanos) w = inr (Fire ns) -> fire_ok prev ns.
   Proof.
     intros prev w ns Hp Hg Hb. unfold nft_body in Hb. pose proof (good_next w Hg) as N.
@@ -197,16 +197,16 @@ Section Sound.
     destruct (first_after z (civil_to_unix w') (prev / nanos)) as [t|] eqn:Ef; [|discriminate].
     destruct (max_nanos <? t * nanos) eqn:Em; [discriminate|]. injection Hb as <-.
     apply first_after_some in Ef. destruct Ef as [Ew Hpt]. unfold wall_secs in Ew.
-    unfold max_nanos in *. change Params.max_int64 with 9223372036854775807 in *. unfold nanos in *.
-    assert (Ht : 0 <= t <= 9223372036) by lia.
+    unfold max_nanos, min_nanos in *. change Params.max_int64 with 9223372036854775807 in *. unfold nanos in *.
+    assert (Ht : -9223372037 <= t <= 9223372036) by lia.
     unfold fire_ok, nanos, max_nanos. change Params.max_int64 with 9223372036854775807. rewrite Z.mod_mul by lia. rewrite Z.div_mul by lia. split; [reflexivity|]. split; [lia|].
     exists w'. pose proof (Hz t) as Ho.
     assert (Ec : civil_from_unix (offset_at z t) t = Some w').
     { replace t with (civil_to_unix w' - offset_at z t) at 2 by lia.
-      apply civil_from_unix_to_unix; [apply (all_valid_c_valid f Hwf); exact Ha | exact Ho | lia]. }
+      apply civil_from_unix_to_unix_wide; apply (all_valid_c_valid f Hwf); exact Ha. }
     split; [exact Ec|].
     destruct w' as [[[[[y m] d] h] mi] s] eqn:Ew'.
-    pose proof (civil_from_unix_year_range _ _ _ _ _ _ _ _ Ho Ht Ec) as Hyr.
+    pose proof (civil_from_unix_year_range_wide _ _ _ _ _ _ _ _ Ho Ht Ec) as Hyr.
     apply (all_valid_c_matches f Hwf); [cbn [year_of]; lia | exact Ha].
   Qed.
 
@@ -218,21 +218,21 @@ Section Sound.
   Qed.
 
   (* C01 / C14: every value returned satisfies the expression on the local wall clock *)
-  Theorem nft_zone_sound : forall prev ns, 0 <= prev <= max_nanos ->
+  Theorem nft_zone_sound : forall prev ns, min_nanos <= prev <= max_nanos ->
     next_fire_time_zone f z prev = Fire ns -> fire_ok prev ns.
   Proof.
     intros prev ns Hp H. unfold next_fire_time_zone in H.
-    unfold max_nanos in Hp. change Params.max_int64 with 9223372036854775807 in Hp.
-    assert (Hps : 0 <= prev / nanos <= 9223372036) by (unfold nanos; lia).
+    unfold max_nanos, min_nanos in Hp. change Params.max_int64 with 9223372036854775807 in Hp.
+    assert (Hps : -9223372037 <= prev / nanos <= 9223372036) by (unfold nanos; lia).
     destruct (civil_from_unix (offset_at z (prev / nanos)) (prev / nanos)) as [w0|] eqn:E0; [|discriminate].
     pose proof (civil_from_unix_sound _ _ _ E0) as [Hv0 _].
     assert (G0 : good w0).
     { left. split; [exact Hv0|]. destruct w0 as [[[[[y m] d] h] mi] s].
-      pose proof (civil_from_unix_year_range _ _ _ _ _ _ _ _ (Hz _) Hps E0). cbn [year_of]. lia. }
+      pose proof (civil_from_unix_year_range_wide _ _ _ _ _ _ _ _ (Hz _) Hps E0). cbn [year_of]. lia. }
     pose proof (loop_pos_inv _ _ (nft_body f z (prev / nanos)) good
                   (fun r => match r with Fire ns' => fire_ok prev ns' | _ => True end)
                   (fun a a' Ha Hb => body_good _ a a' Ha Hb)) as L.
-    specialize (L ltac:(intros a [ns'| |] Ha Hb; [eapply body_fire; [unfold max_nanos; change Params.max_int64 with 9223372036854775807; lia | exact Ha | exact Hb] | exact I | exact I])).
+    specialize (L ltac:(intros a [ns'| |] Ha Hb; [eapply body_fire; [unfold max_nanos, min_nanos; change Params.max_int64 with 9223372036854775807; lia | exact Ha | exact Hb] | exact I | exact I])).
     specialize (L zone_fuel w0 G0).
     destruct (loop_pos zone_fuel (nft_body f z (prev / nanos)) w0) as [w|r]; [discriminate|].
     subst r. exact L.
@@ -248,11 +248,11 @@ Proof.
   destruct w as [[[[[y m] d] h] mi] s]. cbn [year_of] in Hy. cbn. lia.
 Qed.
 
-Lemma to_unix_above_1969 : forall w, valid_civil w = true -> 1969 <= year_of w -> -31536000 <= civil_to_unix w.
+Lemma to_unix_above_1677 : forall w, valid_civil w = true -> 1677 <= year_of w -> -9246096000 <= civil_to_unix w.
 Proof.
-  intros w Hv Hy. change (-31536000) with (civil_to_unix (1969, 1, 1, 0, 0, 0)).
-  destruct (civil_lt_trichotomy (1969, 1, 1, 0, 0, 0) w) as [H|[H|H]].
-  - assert (V0 : valid_civil (1969, 1, 1, 0, 0, 0) = true) by reflexivity.
+  intros w Hv Hy. change (-9246096000) with (civil_to_unix (1677, 1, 1, 0, 0, 0)).
+  destruct (civil_lt_trichotomy (1677, 1, 1, 0, 0, 0) w) as [H|[H|H]].
+  - assert (V0 : valid_civil (1677, 1, 1, 0, 0, 0) = true) by reflexivity.
     pose proof (civil_to_unix_lt _ _ V0 Hv H). lia.
   - subst w. lia.
   - exfalso. destruct w as [[[[[y m] d] h] mi] s]. cbn [year_of] in Hy.
@@ -290,15 +290,15 @@ Section Total.
     destruct (max_nanos <? z0 * nanos); discriminate.
   Qed.
 
-  Theorem nft_zone_total : forall prev, 0 <= prev <= max_nanos -> next_fire_time_zone f z prev <> ModelError.
+  Theorem nft_zone_total : forall prev, min_nanos <= prev <= max_nanos -> next_fire_time_zone f z prev <> ModelError.
   Proof.
     intros prev Hp H. unfold next_fire_time_zone in H.
-    unfold max_nanos in Hp. change Params.max_int64 with 9223372036854775807 in Hp.
-    assert (Hps : 0 <= prev / nanos <= 9223372036) by (unfold nanos; lia).
-    destruct (civil_from_unix_total _ _ (Hz (prev / nanos)) Hps) as [w0 E0]. rewrite E0 in H.
+    unfold max_nanos, min_nanos in Hp. change Params.max_int64 with 9223372036854775807 in Hp.
+    assert (Hps : -9223372037 <= prev / nanos <= 9223372036) by (unfold nanos; lia).
+    destruct (civil_from_unix_total_wide (offset_at z (prev / nanos)) (prev / nanos)) as [w0 E0]. rewrite E0 in H.
     pose proof (civil_from_unix_sound _ _ _ E0) as [Hv0 _].
-    assert (Hy0 : 1969 <= year_of w0 <= 2262).
-    { destruct w0 as [[[[[y m] d] h] mi] s]. exact (civil_from_unix_year_range _ _ _ _ _ _ _ _ (Hz _) Hps E0). }
+    assert (Hy0 : 1677 <= year_of w0 <= 2262).
+    { destruct w0 as [[[[[y m] d] h] mi] s]. exact (civil_from_unix_year_range_wide _ _ _ _ _ _ _ _ (Hz _) Hps E0). }
     assert (G0 : good f w0) by (left; split; [exact Hv0 | lia]).
     pose proof (loop_pos_decreasing _ _ (nft_body f z (prev / nanos)) (fun w => far_bound - civil_to_unix w) (good f)
                   (fun a a' Ha Hb => body_decreases _ a a' Ha Hb) zone_fuel w0 G0) as D.
@@ -306,7 +306,7 @@ Section Total.
                   (fun a a' Ha Hb => body_good f Hwf z _ a a' Ha Hb)
                   (fun a b Ha Hb Hr => body_no_error _ a Ha (eq_trans Hb (f_equal inr Hr))) zone_fuel w0 G0) as L.
     destruct (loop_pos zone_fuel (nft_body f z (prev / nanos)) w0) as [w|r].
-    - destruct D as (_ & Hpos & Hd). pose proof (to_unix_above_1969 w0 Hv0 ltac:(lia)).
+    - destruct D as (_ & Hpos & Hd). pose proof (to_unix_above_1677 w0 Hv0 ltac:(lia)).
       change (Z.pos zone_fuel) with 137438953472 in Hd. unfold far_bound in *.
       change (civil_to_unix (3941, 1, 1, 0, 0, 0)) with 62198755200 in *. lia.
     - apply L. exact H.
@@ -349,7 +349,7 @@ Section Fixed.
   Proof. reflexivity. Qed.
 
   (* what the model computes for a fixed-offset location, in one step *)
-  Lemma nft_fixed_unfold : forall prev w0, 0 <= prev <= max_nanos ->
+  Lemma nft_fixed_unfold : forall prev w0, min_nanos <= prev <= max_nanos ->
     civil_from_unix off (prev / nanos) = Some w0 ->
     next_fire_time f off prev =
       match wall_next f w0 with
@@ -361,11 +361,11 @@ Section Fixed.
   Proof.
     intros prev w0 Hp E0. unfold next_fire_time, next_fire_time_zone.
     change (offset_at (fixed_zone off) (prev / nanos)) with off. rewrite E0.
-    unfold max_nanos in Hp. change Params.max_int64 with 9223372036854775807 in Hp.
-    assert (Hps : 0 <= prev / nanos <= 9223372036) by (unfold nanos; lia).
+    unfold max_nanos, min_nanos in Hp. change Params.max_int64 with 9223372036854775807 in Hp.
+    assert (Hps : -9223372037 <= prev / nanos <= 9223372036) by (unfold nanos; lia).
     pose proof (civil_from_unix_sound _ _ _ E0) as [Hv0 Hu0].
     assert (Hy0 : 0 <= year_of w0 <= 2262).
-    { destruct w0 as [[[[[y m] d] h] mi] s]. pose proof (civil_from_unix_year_range _ _ _ _ _ _ _ _ Hoff Hps E0). cbn [year_of]. lia. }
+    { destruct w0 as [[[[[y m] d] h] mi] s]. pose proof (civil_from_unix_year_range_wide _ _ _ _ _ _ _ _ Hoff Hps E0). cbn [year_of]. lia. }
     pose proof (wall_next_low f Hwf w0 Hv0 Hy0) as N.
     assert (Eb : nft_body f (fixed_zone off) (prev / nanos) w0 =
                  inr (match wall_next f w0 with
@@ -385,32 +385,32 @@ Section Fixed.
   Proof. intros t' H. unfold nanos in *. lia. Qed.
 
   (* the instant k (seconds) reads a civil tuple that is all-valid iff it matches *)
-  Lemma instant_civil : forall k, 0 <= k <= 9223372036 ->
+  Lemma instant_civil : forall k, -9223372037 <= k <= 9223372036 ->
     exists c, civil_from_unix off k = Some c /\ valid_civil c = true /\ civil_to_unix c = k + off /\ year_of c <= 2262.
   Proof.
-    intros k Hk. destruct (civil_from_unix_total off k Hoff Hk) as [c E]. exists c. split; [exact E|].
+    intros k Hk. destruct (civil_from_unix_total_wide off k) as [c E]. exists c. split; [exact E|].
     destruct (civil_from_unix_sound _ _ _ E) as [Hv Hu]. split; [exact Hv|]. split; [exact Hu|].
-    destruct c as [[[[[y m] d] h] mi] s]. pose proof (civil_from_unix_year_range _ _ _ _ _ _ _ _ Hoff Hk E). cbn [year_of]. lia.
+    destruct c as [[[[[y m] d] h] mi] s]. pose proof (civil_from_unix_year_range_wide _ _ _ _ _ _ _ _ Hoff Hk E). cbn [year_of]. lia.
   Qed.
 
-  Theorem nft_fixed_total : forall prev, 0 <= prev <= max_nanos -> next_fire_time f off prev <> ModelError.
+  Theorem nft_fixed_total : forall prev, min_nanos <= prev <= max_nanos -> next_fire_time f off prev <> ModelError.
   Proof. intros prev Hp. apply (nft_zone_total f Hwf (fixed_zone off) (fixed_zone_off_ok off Hoff) prev Hp). Qed.
 
-  Theorem nft_fixed_sound : forall prev ns, 0 <= prev <= max_nanos -> next_fire_time f off prev = Fire ns ->
+  Theorem nft_fixed_sound : forall prev ns, min_nanos <= prev <= max_nanos -> next_fire_time f off prev = Fire ns ->
     fire_ok f (fixed_zone off) prev ns.
   Proof. intros prev ns Hp H. apply (nft_zone_sound f Hwf (fixed_zone off) (fixed_zone_off_ok off Hoff) prev ns Hp H). Qed.
 
   (* C02: nothing matching lies strictly between prev and the result *)
-  Theorem nft_fixed_least : forall prev ns, 0 <= prev <= max_nanos -> next_fire_time f off prev = Fire ns ->
+  Theorem nft_fixed_least : forall prev ns, min_nanos <= prev <= max_nanos -> next_fire_time f off prev = Fire ns ->
     forall t', prev < t' < ns -> t' mod nanos = 0 -> ~ matches_at f (fixed_zone off) t'.
   Proof.
     intros prev ns Hp H t' Ht' Hmod [c [Ec Hm]].
-    unfold max_nanos in Hp. change Params.max_int64 with 9223372036854775807 in Hp.
-    assert (Hps : 0 <= prev / nanos <= 9223372036) by (unfold nanos; lia).
+    unfold max_nanos, min_nanos in Hp. change Params.max_int64 with 9223372036854775807 in Hp.
+    assert (Hps : -9223372037 <= prev / nanos <= 9223372036) by (unfold nanos; lia).
     destruct (instant_civil (prev / nanos) Hps) as (w0 & E0 & Hv0 & Hu0 & Hy0).
-    rewrite (nft_fixed_unfold prev w0 ltac:(unfold max_nanos; change Params.max_int64 with 9223372036854775807; lia) E0) in H.
+    rewrite (nft_fixed_unfold prev w0 ltac:(unfold max_nanos, min_nanos; change Params.max_int64 with 9223372036854775807; lia) E0) in H.
     assert (Hy0' : 0 <= year_of w0 <= 2262).
-    { destruct w0 as [[[[[y m] d] h] mi] s]. pose proof (civil_from_unix_year_range _ _ _ _ _ _ _ _ Hoff Hps E0). cbn [year_of]. lia. }
+    { destruct w0 as [[[[[y m] d] h] mi] s]. pose proof (civil_from_unix_year_range_wide _ _ _ _ _ _ _ _ Hoff Hps E0). cbn [year_of]. lia. }
     pose proof (wall_next_low f Hwf w0 Hv0 Hy0') as N.
     destruct (wall_next f w0) as [w'| |]; [|discriminate|discriminate].
     destruct N as (Ha & Hlt & Hleast). cbn zeta in H.
@@ -418,10 +418,10 @@ Section Fixed.
     change (offset_at (fixed_zone off) (t' / nanos)) with off in Ec.
     set (k := t' / nanos) in *. pose proof (whole_second t' Hmod) as Hk. fold k in Hk.
     unfold max_nanos in Em. change Params.max_int64 with 9223372036854775807 in Em. unfold nanos in *.
-    assert (Hkr : 0 <= k <= 9223372036) by lia.
+    assert (Hkr : -9223372037 <= k <= 9223372036) by lia.
     destruct (civil_from_unix_sound _ _ _ Ec) as [Hvc Huc].
     assert (Hyc : year_of c <= 2262).
-    { destruct c as [[[[[y m] d] h] mi] s]. pose proof (civil_from_unix_year_range _ _ _ _ _ _ _ _ Hoff Hkr Ec). cbn [year_of]. lia. }
+    { destruct c as [[[[[y m] d] h] mi] s]. pose proof (civil_from_unix_year_range_wide _ _ _ _ _ _ _ _ Hoff Hkr Ec). cbn [year_of]. lia. }
     assert (Hac : all_valid_c f c) by (apply (all_valid_c_matches f Hwf c Hyc); exact Hm).
     assert (Hltc : civil_lt w0 c) by (apply civil_to_unix_lt_inv; [exact Hv0 | exact Hvc | lia]).
     destruct (Hleast c Hac Hltc) as [->|Hlt'].
@@ -430,25 +430,25 @@ Section Fixed.
   Qed.
 
   (* C02: expiry is reported exactly when no matching instant is left in the representable range *)
-  Theorem nft_fixed_expired_iff : forall prev, 0 <= prev <= max_nanos ->
+  Theorem nft_fixed_expired_iff : forall prev, min_nanos <= prev <= max_nanos ->
     (next_fire_time f off prev = Expired <->
      forall t', prev < t' <= max_nanos -> t' mod nanos = 0 -> ~ matches_at f (fixed_zone off) t').
   Proof.
     intros prev Hp. split.
     - intros H t' Ht' Hmod [c [Ec Hm]].
-      unfold max_nanos in Hp, Ht'. change Params.max_int64 with 9223372036854775807 in Hp, Ht'.
-      assert (Hps : 0 <= prev / nanos <= 9223372036) by (unfold nanos; lia).
+      unfold max_nanos, min_nanos in Hp, Ht'. change Params.max_int64 with 9223372036854775807 in Hp, Ht'.
+      assert (Hps : -9223372037 <= prev / nanos <= 9223372036) by (unfold nanos; lia).
       destruct (instant_civil (prev / nanos) Hps) as (w0 & E0 & Hv0 & Hu0 & Hy0).
-      rewrite (nft_fixed_unfold prev w0 ltac:(unfold max_nanos; change Params.max_int64 with 9223372036854775807; lia) E0) in H.
+      rewrite (nft_fixed_unfold prev w0 ltac:(unfold max_nanos, min_nanos; change Params.max_int64 with 9223372036854775807; lia) E0) in H.
       assert (Hy0' : 0 <= year_of w0 <= 2262).
-      { destruct w0 as [[[[[y m] d] h] mi] s]. pose proof (civil_from_unix_year_range _ _ _ _ _ _ _ _ Hoff Hps E0). cbn [year_of]. lia. }
+      { destruct w0 as [[[[[y m] d] h] mi] s]. pose proof (civil_from_unix_year_range_wide _ _ _ _ _ _ _ _ Hoff Hps E0). cbn [year_of]. lia. }
       pose proof (wall_next_low f Hwf w0 Hv0 Hy0') as N.
       change (offset_at (fixed_zone off) (t' / nanos)) with off in Ec.
       set (k := t' / nanos) in *. pose proof (whole_second t' Hmod) as Hk. fold k in Hk. unfold nanos in *.
-      assert (Hkr : 0 <= k <= 9223372036) by lia.
+      assert (Hkr : -9223372037 <= k <= 9223372036) by lia.
       destruct (civil_from_unix_sound _ _ _ Ec) as [Hvc Huc].
       assert (Hyc : year_of c <= 2262).
-      { destruct c as [[[[[y m] d] h] mi] s]. pose proof (civil_from_unix_year_range _ _ _ _ _ _ _ _ Hoff Hkr Ec). cbn [year_of]. lia. }
+      { destruct c as [[[[[y m] d] h] mi] s]. pose proof (civil_from_unix_year_range_wide _ _ _ _ _ _ _ _ Hoff Hkr Ec). cbn [year_of]. lia. }
       assert (Hac : all_valid_c f c) by (apply (all_valid_c_matches f Hwf c Hyc); exact Hm).
       assert (Hltc : civil_lt w0 c) by (apply civil_to_unix_lt_inv; [exact Hv0 | exact Hvc | lia]).
       destruct (wall_next f w0) as [w'| |]; [| exact (N c Hac Hltc) | discriminate].
@@ -480,7 +480,7 @@ Proof.
 Qed.
 
 Theorem nft_fixed_sound' : forall f off prev ns, wf_fields f = true -> -93600 <= off <= 93600 ->
-  0 <= prev <= max_nanos -> next_fire_time f off prev = Fire ns ->
+  min_nanos <= prev <= max_nanos -> next_fire_time f off prev = Fire ns ->
   ns mod nanos = 0 /\ prev < ns <= max_nanos /\
   exists c, civil_from_unix off (ns / nanos) = Some c /\ matches f c = true /\ valid_civil c = true.
 Proof.
@@ -490,13 +490,13 @@ Qed.
 
 (* iterating NextFireTime enumerates every scheduled instant once and in order *)
 Theorem nft_fixed_chain : forall f off prev n1 n2, wf_fields f = true -> -93600 <= off <= 93600 ->
-  0 <= prev <= max_nanos -> next_fire_time f off prev = Fire n1 -> next_fire_time f off n1 = Fire n2 ->
+  min_nanos <= prev <= max_nanos -> next_fire_time f off prev = Fire n1 -> next_fire_time f off n1 = Fire n2 ->
   prev < n1 < n2 /\
   forall t', prev < t' < n2 -> t' mod nanos = 0 -> matches_at f (fixed_zone off) t' -> t' = n1.
 Proof.
   intros f off prev n1 n2 Hwf Hoff Hp H1 H2.
   destruct (nft_fixed_sound f Hwf off Hoff prev n1 Hp H1) as (A1 & B1 & _).
-  assert (Hp1 : 0 <= n1 <= max_nanos) by lia.
+  assert (Hp1 : min_nanos <= n1 <= max_nanos) by lia.
   destruct (nft_fixed_sound f Hwf off Hoff n1 n2 Hp1 H2) as (A2 & B2 & _).
   split; [lia|]. intros t' Ht' Hmod Hm.
   destruct (Z.lt_trichotomy t' n1) as [Hlt|[Heq|Hgt]]; [|exact Heq|].
@@ -505,7 +505,7 @@ Proof.
 Qed.
 
 Theorem nft_zone_sound_wf : forall f z prev ns, wf_fields f = true -> wf_zone z = true ->
-  0 <= prev <= max_nanos -> next_fire_time_zone f z prev = Fire ns ->
+  min_nanos <= prev <= max_nanos -> next_fire_time_zone f z prev = Fire ns ->
   ns mod nanos = 0 /\ prev < ns <= max_nanos /\
   exists c, civil_from_unix (offset_at z (ns / nanos)) (ns / nanos) = Some c /\ matches f c = true /\ valid_civil c = true.
 Proof.
@@ -515,7 +515,7 @@ Proof.
 Qed.
 
 Theorem nft_zone_total_wf : forall f z prev, wf_fields f = true -> wf_zone z = true ->
-  0 <= prev <= max_nanos -> next_fire_time_zone f z prev <> ModelError.
+  min_nanos <= prev <= max_nanos -> next_fire_time_zone f z prev <> ModelError.
 Proof. intros f z prev Hwf Hz Hp. apply (nft_zone_total f Hwf z (wf_zone_off_ok z Hz) prev Hp). Qed.
 
 (* a location without transitions is a fixed-offset location: there the result is exact *)
